@@ -1,1 +1,540 @@
-fn main(){ println!("stub"); }
+//! C11 driver: records histories of real `RowConverter` instances: rows produced
+//! by `convert_columns` / `append` from several input arrays (order keys of every
+//! field + the encoded bytes), results of `Row`'s Ord / Eq, `convert_rows` on
+//! selections (also through `RowParser`), and the trip through the binary-array
+//! form.  No expectation is computed here: Trace_RowFormat.tla decides with the
+//! order of Order.tla.
+use arrow_array::*;
+use arrow_row::{RowConverter, Rows, SortField};
+use arrow_schema::{ArrowError, DataType, Field, Fields, SortOptions};
+use std::sync::Arc;
+use vcore::key::{self, Unions};
+use vcore::mk::{self, Cfg};
+use vcore::trace::Shards;
+use vcore::{guarded, json, mutate, tok, Args, Rng, Value};
+
+fn unsupported(msg: &str) -> bool {
+    let m = msg.to_ascii_lowercase();
+    m.contains("not supported") || m.contains("not yet implemented") || m.contains("not implemented") || m.contains("unsupported")
+}
+
+enum Out<T> {
+    Ok(T),
+    Err(String),
+    Unsupported,
+}
+
+fn call<T>(f: impl FnOnce() -> Result<T, ArrowError>) -> Out<T> {
+    match guarded(f) {
+        Ok(Ok(v)) => Out::Ok(v),
+        Ok(Err(e)) => {
+            let s = e.to_string();
+            if unsupported(&s) { Out::Unsupported } else { Out::Err(s) }
+        }
+        Err(p) => {
+            if unsupported(&p) { Out::Unsupported } else { Out::Err(format!("panic: {p}")) }
+        }
+    }
+}
+
+const ALL_OPTS: [SortOptions; 4] = [
+    SortOptions { descending: false, nulls_first: true },
+    SortOptions { descending: false, nulls_first: false },
+    SortOptions { descending: true, nulls_first: true },
+    SortOptions { descending: true, nulls_first: false },
+];
+
+struct Stats {
+    events: usize,
+    instances: usize,
+    rows: usize,
+    skipped: usize,
+    errs: usize,
+}
+
+fn short(s: String, n: usize) -> String {
+    if s.len() > n { format!("{}..", s.chars().take(n).collect::<String>()) } else { s }
+}
+
+// ------------------------------------------------------------------ inputs
+
+const BOUNDARY_LENS: [usize; 20] = [0, 1, 2, 7, 8, 9, 15, 16, 17, 23, 24, 25, 31, 32, 33, 40, 63, 64, 65, 66];
+
+/// byte strings that are prefixes of one base string cut around the 8- and 32-byte block
+/// boundaries, some with the last byte changed; bytes that look like sentinels, padding,
+/// length bytes and continuation markers
+fn boundary_values(rng: &mut Rng, n: usize, utf8: bool, null_pct: usize) -> Vec<Option<Vec<u8>>> {
+    let alphabet: &[u8] = if utf8 { &[0x00, 0x01, 0x02, b'a', 0x7f, 0x20, 0x08] } else { &[0x00, 0x01, 0x02, 0xFF, 0xFE, 0xFD, b'a', 0x08, 0x20] };
+    let style = rng.below(3);
+    let fill = *rng.pick(alphabet);
+    let base: Vec<u8> = (0..66).map(|_| if style == 0 { fill } else if style == 1 && rng.chance(70) { fill } else { *rng.pick(alphabet) }).collect();
+    (0..n)
+        .map(|_| {
+            if rng.chance(null_pct) {
+                return None;
+            }
+            let len = *rng.pick(&BOUNDARY_LENS);
+            let mut v = base[..len].to_vec();
+            if len > 0 && rng.chance(30) {
+                let k = if rng.chance(70) { len - 1 } else { rng.below(len) };
+                v[k] = *rng.pick(alphabet);
+            }
+            Some(v)
+        })
+        .collect()
+}
+
+fn boundary_array(rng: &mut Rng, dt: &DataType, n: usize, null_pct: usize) -> Option<ArrayRef> {
+    use DataType::*;
+    let utf8 = matches!(dt, Utf8 | LargeUtf8 | Utf8View);
+    let vals = boundary_values(rng, n, utf8, null_pct);
+    let strs = || vals.iter().map(|v| v.as_ref().map(|b| String::from_utf8(b.clone()).unwrap())).collect::<Vec<_>>();
+    Some(match dt {
+        Utf8 => Arc::new(StringArray::from(strs())),
+        LargeUtf8 => Arc::new(LargeStringArray::from(strs())),
+        Utf8View => Arc::new(StringViewArray::from_iter(strs())),
+        Binary => Arc::new(BinaryArray::from_iter(vals.iter().map(|v| v.as_deref()))),
+        LargeBinary => Arc::new(LargeBinaryArray::from_iter(vals.iter().map(|v| v.as_deref()))),
+        BinaryView => Arc::new(BinaryViewArray::from_iter(vals.iter().map(|v| v.as_deref()))),
+        _ => return None,
+    })
+}
+
+fn low_card(rng: &mut Rng, dt: &DataType, n: usize, null_pct: usize) -> ArrayRef {
+    let m = 1 + rng.below(3);
+    let base = mk::array(rng, dt, m, Cfg::wild(null_pct));
+    let idx = UInt32Array::from((0..n).map(|_| rng.below(m) as u32).collect::<Vec<_>>());
+    match guarded(|| arrow_select::take::take(base.as_ref(), &idx, None)) {
+        Ok(Ok(a)) if a.len() == n && a.data_type() == dt => a,
+        _ => mk::array(rng, dt, n, Cfg::wild(null_pct)),
+    }
+}
+
+fn gen_col(rng: &mut Rng, dt: &DataType, n: usize) -> ArrayRef {
+    let null_pct = *rng.pick(&[0usize, 15, 15, 40]);
+    if rng.chance(45) {
+        if let Some(a) = boundary_array(rng, dt, n, null_pct) {
+            return a;
+        }
+    }
+    if rng.chance(35) { low_card(rng, dt, n, null_pct) } else { mk::array(rng, dt, n, Cfg::wild(null_pct)) }
+}
+
+/// a different physical realisation of the same logical column (checked)
+fn relayout(rng: &mut Rng, a: &ArrayRef) -> ArrayRef {
+    let reals = mutate::realisations(rng, a, 4);
+    let (_, r) = reals[rng.below(reals.len())].clone();
+    if r.data_type() == a.data_type() && tok::rows(r.as_ref()) == tok::rows(a.as_ref()) { r } else { a.clone() }
+}
+
+// ---------------------------------------------------------------- instance
+
+struct Inst<'a> {
+    t: &'a mut Shards,
+    st: &'a mut Stats,
+    conv: RowConverter,
+    ty: String,
+    nfields: usize,
+    /// the Rows objects of this instance and, for each of their rows, the global row number
+    objs: Vec<(Rows, Vec<usize>)>,
+    total: usize,
+}
+
+impl<'a> Inst<'a> {
+    fn emit(&mut self, mut ev: Value) {
+        ev.as_object_mut().unwrap().insert("ty".into(), json!(self.ty));
+        self.t.emit(ev);
+        self.st.events += 1;
+    }
+
+    fn keys_of(cols: &[ArrayRef]) -> Result<Vec<Value>, String> {
+        guarded(|| cols.iter().map(|c| key::column(c.as_ref(), Unions::Keep)).collect::<Vec<_>>())
+    }
+
+    fn row_bytes(rows: &Rows, from: usize) -> Vec<Value> {
+        (from..rows.num_rows()).map(|i| json!(rows.row(i).as_ref())).collect()
+    }
+
+    /// convert_columns: a new Rows object
+    fn convert(&mut self, cols: &[ArrayRef]) -> bool {
+        let keys = match Self::keys_of(cols) {
+            Ok(k) => k,
+            Err(_) => return false,
+        };
+        let conv = &self.conv;
+        match call(|| conv.convert_columns(cols)) {
+            Out::Unsupported => {
+                self.st.skipped += 1;
+                false
+            }
+            Out::Err(e) => {
+                self.st.errs += 1;
+                self.emit(json!({"op": "conv", "via": "convert", "err": true, "msg": short(e, 200), "keys": keys, "bytes": []}));
+                true
+            }
+            Out::Ok(rows) => {
+                let n = rows.num_rows();
+                let bytes = Self::row_bytes(&rows, 0);
+                let ids: Vec<usize> = (self.total..self.total + n).collect();
+                self.total += n;
+                self.st.rows += n;
+                self.objs.push((rows, ids));
+                self.emit(json!({"op": "conv", "via": "convert", "err": false, "keys": keys, "bytes": bytes}));
+                true
+            }
+        }
+    }
+
+    /// append to an existing Rows object
+    fn append(&mut self, obj: usize, cols: &[ArrayRef]) {
+        let keys = match Self::keys_of(cols) {
+            Ok(k) => k,
+            Err(_) => return,
+        };
+        let conv = &self.conv;
+        let (rows, ids) = &mut self.objs[obj];
+        let before = rows.num_rows();
+        let res = call(|| conv.append(rows, cols));
+        match res {
+            Out::Unsupported => self.st.skipped += 1,
+            Out::Err(e) => {
+                self.st.errs += 1;
+                self.emit(json!({"op": "conv", "via": "append", "err": true, "msg": short(e, 200), "keys": keys, "bytes": []}));
+            }
+            Out::Ok(()) => {
+                let n = rows.num_rows() - before;
+                let bytes = Self::row_bytes(rows, before);
+                ids.extend(self.total..self.total + n);
+                self.total += n;
+                self.st.rows += n;
+                self.emit(json!({"op": "conv", "via": "append", "err": false, "keys": keys, "bytes": bytes}));
+            }
+        }
+    }
+
+    fn locate(&self, g: usize) -> (usize, usize) {
+        for (o, (_, ids)) in self.objs.iter().enumerate() {
+            if let Some(p) = ids.iter().position(|x| *x == g) {
+                return (o, p);
+            }
+        }
+        unreachable!()
+    }
+
+    /// Row's Ord / Eq (and OwnedRow's) on pairs of rows of any of the Rows objects
+    fn ord(&mut self, rng: &mut Rng, k: usize) {
+        if self.total == 0 {
+            return;
+        }
+        let pairs: Vec<(usize, usize)> = (0..k).map(|_| (rng.below(self.total), rng.below(self.total))).collect();
+        let mut cmp = vec![];
+        let mut eq = vec![];
+        for (a, b) in &pairs {
+            let (oa, pa) = self.locate(*a);
+            let (ob, pb) = self.locate(*b);
+            let ra = self.objs[oa].0.row(pa);
+            let rb = self.objs[ob].0.row(pb);
+            if rng.chance(30) {
+                let (xa, xb) = (ra.owned(), rb.owned());
+                cmp.push(xa.cmp(&xb) as i32);
+                eq.push(xa == xb);
+            } else {
+                cmp.push(ra.cmp(&rb) as i32);
+                eq.push(ra == rb);
+            }
+        }
+        self.emit(json!({"op": "ord", "pairs": pairs.iter().map(|(a, b)| json!([a, b])).collect::<Vec<_>>(), "cmp": cmp, "eq": eq}));
+    }
+
+    fn emit_decoded(&mut self, op: &str, via: &str, sel: &[usize], res: Out<Vec<ArrayRef>>, extra: Option<Value>) {
+        let mut ev = json!({"op": op, "via": via, "sel": sel});
+        let m = ev.as_object_mut().unwrap();
+        if let Some(x) = extra {
+            m.insert("bytes".into(), x);
+        }
+        match res {
+            Out::Unsupported => {
+                self.st.skipped += 1;
+                return;
+            }
+            Out::Err(e) => {
+                self.st.errs += 1;
+                m.insert("err".into(), json!(true));
+                m.insert("msg".into(), json!(short(e, 200)));
+                m.insert("keys".into(), json!([]));
+            }
+            Out::Ok(cols) => match Self::keys_of(&cols) {
+                Ok(k) => {
+                    m.insert("err".into(), json!(false));
+                    m.insert("keys".into(), json!(k));
+                }
+                Err(p) => {
+                    self.st.errs += 1;
+                    m.insert("err".into(), json!(true));
+                    m.insert("msg".into(), json!(short(format!("panic reading decoded arrays: {p}"), 200)));
+                    m.insert("keys".into(), json!([]));
+                }
+            },
+        }
+        self.emit(ev);
+    }
+
+    /// convert_rows on a selection mixing rows of all Rows objects
+    fn decode_selection(&mut self, rng: &mut Rng, k: usize, parser: bool) {
+        if self.total == 0 {
+            return;
+        }
+        let sel: Vec<usize> = (0..k).map(|_| rng.below(self.total)).collect();
+        let locs: Vec<(usize, usize)> = sel.iter().map(|g| self.locate(*g)).collect();
+        let res = {
+            let conv = &self.conv;
+            let objs = &self.objs;
+            if parser {
+                // through the raw bytes and RowParser
+                let raw: Vec<Vec<u8>> = locs.iter().map(|(o, p)| objs[*o].0.row(*p).as_ref().to_vec()).collect();
+                call(|| {
+                    let parser = conv.parser();
+                    conv.convert_rows(raw.iter().map(|b| parser.parse(b)))
+                })
+            } else {
+                call(|| conv.convert_rows(locs.iter().map(|(o, p)| objs[*o].0.row(*p))))
+            }
+        };
+        self.emit_decoded("dec", if parser { "parser" } else { "rows" }, &sel, res, None);
+    }
+
+    /// convert_rows on a whole Rows object
+    fn decode_all(&mut self, obj: usize) {
+        let sel = self.objs[obj].1.clone();
+        let res = {
+            let conv = &self.conv;
+            let rows = &self.objs[obj].0;
+            call(|| conv.convert_rows(rows))
+        };
+        self.emit_decoded("dec", "all", &sel, res, None);
+    }
+
+    /// Rows::push: copies of a selection of rows in a fresh Rows object, then decoded
+    fn push_copy(&mut self, rng: &mut Rng, k: usize) {
+        if self.total == 0 {
+            return;
+        }
+        let sel: Vec<usize> = (0..k).map(|_| rng.below(self.total)).collect();
+        let locs: Vec<(usize, usize)> = sel.iter().map(|g| self.locate(*g)).collect();
+        let mut bytes = vec![];
+        let res = {
+            let conv = &self.conv;
+            let objs = &self.objs;
+            call(|| {
+                let mut r = conv.empty_rows(rng.below(3), rng.below(16));
+                for (o, p) in &locs {
+                    r.push(objs[*o].0.row(*p));
+                }
+                bytes = (0..r.num_rows()).map(|i| json!(r.row(i).as_ref())).collect();
+                conv.convert_rows(&r)
+            })
+        };
+        self.emit_decoded("bin", "push", &sel, res, Some(json!(bytes)));
+    }
+
+    /// Rows -> BinaryArray -> Rows -> convert_rows (consumes the Rows object)
+    fn binary_round_trip(&mut self, obj: usize) {
+        let (rows, ids) = self.objs.remove(obj);
+        let conv = &self.conv;
+        let mut bytes = vec![];
+        let res = call(|| {
+            let bin = rows.try_into_binary()?;
+            let back = conv.from_binary(bin);
+            bytes = (0..back.num_rows()).map(|i| json!(back.row(i).as_ref())).collect();
+            conv.convert_rows(&back)
+        });
+        // the object is gone: its rows stay in the specification's row set (they are values), but
+        // the driver can no longer address them
+        self.emit_decoded("bin", "binary", &ids, res, Some(json!(bytes)));
+    }
+}
+
+fn instance(rng: &mut Rng, args: &Args, t: &mut Shards, st: &mut Stats, fields: &[DataType], opts: &[SortOptions]) {
+    let sort_fields: Vec<SortField> = fields.iter().zip(opts).map(|(f, o)| SortField::new_with_options(f.clone(), *o)).collect();
+    let conv = match call(|| RowConverter::new(sort_fields)) {
+        Out::Ok(c) => c,
+        _ => {
+            st.skipped += 1;
+            return;
+        }
+    };
+    t.next_episode();
+    let ty = short(fields.iter().map(tok::type_str).collect::<Vec<_>>().join(" | "), 70);
+    // type facts the specification uses to identify known findings: the family of every field and
+    // whether it is a dense union with a type id that is not a valid child position
+    let fam: Vec<&str> = fields.iter().map(tok::family).collect();
+    let dn: Vec<bool> = fields
+        .iter()
+        .map(|f| match f {
+            DataType::Union(uf, arrow_schema::UnionMode::Dense) => uf.iter().any(|(id, _)| id as usize >= uf.len()),
+            _ => false,
+        })
+        .collect();
+    t.emit(json!({"op": "new", "ty": ty, "fam": fam, "dn": dn, "opts": opts.iter().map(|o| json!([o.descending, o.nulls_first])).collect::<Vec<_>>()}));
+    st.events += 1;
+    st.instances += 1;
+    let mut inst = Inst { t, st, conv, ty, nfields: fields.len(), objs: vec![], total: 0 };
+    let _ = inst.nfields;
+    let max_rows = 40usize;
+    let n1 = 1 + rng.below(12);
+    let a: Vec<ArrayRef> = fields.iter().map(|f| gen_col(rng, f, n1)).collect();
+    if !inst.convert(&a) {
+        return;
+    }
+    if inst.objs.is_empty() {
+        return; // the first conversion failed (reported)
+    }
+    // the same logical rows in another physical layout: must give the same bytes
+    let a2: Vec<ArrayRef> = a.iter().map(|c| relayout(rng, c)).collect();
+    inst.convert(&a2);
+    // other arrays
+    let n2 = rng.below(10);
+    let b: Vec<ArrayRef> = fields.iter().map(|f| gen_col(rng, f, n2)).collect();
+    inst.convert(&b);
+    // append to the first Rows object: rows of a mixed with fresh ones
+    let n3 = (max_rows - inst.total.min(max_rows)).min(1 + rng.below(8));
+    if n3 > 0 {
+        let c: Vec<ArrayRef> = fields.iter().map(|f| gen_col(rng, f, n3)).collect();
+        inst.append(0, &c);
+    }
+    if rng.chance(50) && inst.total + n1 <= max_rows {
+        inst.append(0, &a);
+    }
+    // an empty conversion
+    if rng.chance(20) {
+        let e: Vec<ArrayRef> = fields.iter().map(|f| gen_col(rng, f, 0)).collect();
+        inst.convert(&e);
+    }
+    inst.ord(rng, args.scale(24, 60));
+    let k = 1 + rng.below(10);
+    inst.decode_selection(rng, k, false);
+    let k = 1 + rng.below(10);
+    inst.decode_selection(rng, k, true);
+    inst.decode_all(0);
+    let k = rng.below(8);
+    inst.push_copy(rng, k);
+    if inst.objs.len() > 1 {
+        inst.binary_round_trip(1);
+    }
+    // rows of the remaining objects are still decodable after another object is gone
+    let live: Vec<usize> = inst.objs.iter().flat_map(|(_, ids)| ids.iter().copied()).collect();
+    if !live.is_empty() {
+        let sel: Vec<usize> = (0..1 + rng.below(6)).map(|_| live[rng.below(live.len())]).collect();
+        let locs: Vec<(usize, usize)> = sel.iter().map(|g| inst.locate(*g)).collect();
+        let res = {
+            let conv = &inst.conv;
+            let objs = &inst.objs;
+            call(|| conv.convert_rows(locs.iter().map(|(o, p)| objs[*o].0.row(*p))))
+        };
+        inst.emit_decoded("dec", "rows", &sel, res, None);
+    }
+}
+
+fn extra_types() -> Vec<DataType> {
+    use DataType::*;
+    let f = |n: &str, t: DataType| Arc::new(Field::new(n, t, true));
+    vec![
+        // nested combinations the zoo of vcore::mk does not hold
+        Struct(Fields::from(vec![Field::new("d", Dictionary(Box::new(Int8), Box::new(Utf8)), true), Field::new("f", Float64, true)])),
+        List(f("item", FixedSizeList(f("item", Int16), 2))),
+        FixedSizeList(f("item", Utf8), 2),
+        FixedSizeList(f("item", List(f("item", Int8))), 2),
+        List(f("item", Binary)),
+        LargeList(f("item", Struct(Fields::from(vec![Field::new("x", Utf8, true), Field::new("y", Boolean, true)])))),
+        Struct(Fields::from(vec![Field::new("e", Struct(Fields::empty()), true)])),
+        RunEndEncoded(Arc::new(Field::new("run_ends", Int32, false)), f("values", List(f("item", Int32)))),
+        Dictionary(Box::new(Int16), Box::new(Float32)),
+        Dictionary(Box::new(UInt8), Box::new(Binary)),
+        Dictionary(Box::new(Int32), Box::new(FixedSizeBinary(3))),
+        List(f("item", RunEndEncoded(Arc::new(Field::new("run_ends", Int32, false)), f("values", Utf8)))),
+        Union(arrow_schema::UnionFields::try_new(vec![2, 5], vec![Field::new("f", Float32, true), Field::new("s", Utf8, true)]).unwrap(), arrow_schema::UnionMode::Sparse),
+        Union(arrow_schema::UnionFields::try_new(vec![1, 0], vec![Field::new("i", Int16, true), Field::new("b", Binary, true)]).unwrap(), arrow_schema::UnionMode::Dense),
+        List(f("item", Union(arrow_schema::UnionFields::try_new(vec![0, 1], vec![Field::new("i", Int8, true), Field::new("s", Utf8, true)]).unwrap(), arrow_schema::UnionMode::Sparse))),
+    ]
+}
+
+/// minimal reproductions of the known findings of this property (`c11 repro`)
+fn repro() {
+    use arrow_schema::{UnionFields, UnionMode};
+    // C11-union-descending-child-not-inverted
+    let uf = UnionFields::try_new(vec![0], vec![Field::new("i", DataType::Int32, true)]).unwrap();
+    let u = UnionArray::try_new(uf.clone(), vec![0i8, 0, 0].into(), None, vec![Arc::new(Int32Array::from(vec![Some(1), Some(2), None])) as ArrayRef]).unwrap();
+    let t = DataType::Union(uf, UnionMode::Sparse);
+    for o in ALL_OPTS {
+        let c = RowConverter::new(vec![SortField::new_with_options(t.clone(), o)]).unwrap();
+        let r = c.convert_columns(&[Arc::new(u.clone()) as ArrayRef]).unwrap();
+        println!(
+            "union<i32> [1, 2, null] descending={} nulls_first={}: row(1) {:?} row(2), row(null) {:?} row(1)   [expected {:?}, {:?}]",
+            o.descending,
+            o.nulls_first,
+            r.row(0).cmp(&r.row(1)),
+            r.row(2).cmp(&r.row(0)),
+            if o.descending { std::cmp::Ordering::Greater } else { std::cmp::Ordering::Less },
+            if o.nulls_first { std::cmp::Ordering::Less } else { std::cmp::Ordering::Greater },
+        );
+    }
+    // C11-dense-union-decode-type-id-index
+    let uf = UnionFields::try_new(vec![3, 7], vec![Field::new("i", DataType::Int64, true), Field::new("b", DataType::Boolean, true)]).unwrap();
+    let u = UnionArray::try_new(
+        uf.clone(),
+        vec![3i8, 7].into(),
+        Some(vec![0i32, 0].into()),
+        vec![Arc::new(Int64Array::from(vec![5])) as ArrayRef, Arc::new(BooleanArray::from(vec![true])) as ArrayRef],
+    )
+    .unwrap();
+    let c = RowConverter::new(vec![SortField::new(DataType::Union(uf, UnionMode::Dense))]).unwrap();
+    let r = c.convert_columns(&[Arc::new(u) as ArrayRef]).unwrap();
+    match guarded(|| c.convert_rows(&r)) {
+        Ok(Ok(a)) => println!("dense union type ids {{3,7}}: convert_rows ok, {} rows", a[0].len()),
+        Ok(Err(e)) => println!("dense union type ids {{3,7}}: convert_rows Err({e})"),
+        Err(p) => println!("dense union type ids {{3,7}}: convert_rows PANIC {p}   [expected the 2 input rows]"),
+    }
+}
+
+fn main() {
+    vcore::quiet_panics();
+    let args = Args::parse();
+    if args.driver == "repro" {
+        return repro();
+    }
+    let mut rng = Rng::new(args.seed ^ 0xC11);
+    let mut t = Shards::create(&args.out, "rows", 14);
+    let mut st = Stats { events: 0, instances: 0, rows: 0, skipped: 0, errs: 0 };
+    let mut types = mk::all_types();
+    types.extend(extra_types());
+    let rounds = args.scale(1, 3);
+    for _ in 0..rounds {
+        // every field type alone under every SortOptions
+        for dt in &types {
+            for o in ALL_OPTS {
+                instance(&mut rng, &args, &mut t, &mut st, std::slice::from_ref(dt), &[o]);
+            }
+        }
+        // variable-length types once more (boundary lengths dominate there)
+        for dt in [DataType::Utf8, DataType::LargeUtf8, DataType::Utf8View, DataType::Binary, DataType::LargeBinary, DataType::BinaryView] {
+            for o in ALL_OPTS {
+                for _ in 0..args.scale(2, 4) {
+                    instance(&mut rng, &args, &mut t, &mut st, std::slice::from_ref(&dt), &[o]);
+                }
+            }
+        }
+        // cross-type tuples, one SortOptions per field
+        for _ in 0..args.scale(120, 300) {
+            let k = 2 + rng.below(2);
+            let fields: Vec<DataType> = (0..k).map(|_| rng.pick(&types).clone()).collect();
+            let opts: Vec<SortOptions> = (0..k).map(|_| ALL_OPTS[rng.below(4)]).collect();
+            instance(&mut rng, &args, &mut t, &mut st, &fields, &opts);
+        }
+    }
+    let written = t.finish();
+    assert_eq!(written, st.events);
+    println!(
+        "DRIVER c11 events={} instances={} rows={} skipped_unsupported={} error_outcomes={}",
+        st.events, st.instances, st.rows, st.skipped, st.errs
+    );
+}
